@@ -312,6 +312,14 @@ def exploit_orbits(chk, r, quick):
         (n1(i, a) * n2(j, b) - n1(j, a) * n2(i, b) - n1(i, b) * n2(j, a)
          + n1(j, b) * n2(i, a), "ijab", True),
     ]
+    n3 = lambda *x: NonSymmetricTensor("n3", x)     # noqa
+    # terms related by three-cycles only (no transposition maps one onto
+    # another): the map of P_ij P_ik is not the map of P_ik P_ij
+    cyc = n1(i) * n2(j) * n3(k) + n1(j) * n2(k) * n3(i) + n1(k) * n2(i) * n3(j)
+    cyc2 = n1(i) * n2(j) * n3(k) + n1(j) * n2(k) * n3(i)
+    cyc3 = n1(a) * n2(b) * n3(c) + n1(c) * n2(a) * n3(b)
+    cases += [(cyc, "ijk", False), (cyc, "ijk", True), (cyc2, "ijk", True),
+              (cyc2, "ijk", False), (cyc3, "abc", True), (cyc3, "abc", False)]
     for total, tn_, anti in cases:
         orders = [tn_] if quick else \
             [tn_, "".join(r.sample(list(tn_), len(tn_)))]
